@@ -189,6 +189,20 @@ def run_c16(ctx, C):
     codec_common(ctx, C, [GEN_EAP], [], traces=())
 
 
+def mc_gor(name, n, lazy, scratch, expect="hold"):
+    return dict(module="Goroutines", name=name, expect=expect, view="View",
+                constants=dict(N=n, LazyRegistry=lazy, SharedScratch=scratch),
+                invariants=("NonInterference", "RegistriesConstant"),
+                what="all interleavings of %d goroutines running 1-2 two-step operations each (LazyRegistry=%s SharedScratch=%s)" % (n, lazy, scratch))
+
+
+def run_c18(ctx, C):
+    for m in [mc_gor("goroutines", 3, False, False), mc_gor("goroutines_knob_lazy", 2, True, False, "violate"),
+              mc_gor("goroutines_knob_scratch", 2, False, True, "violate")]:
+        C.stage_mc(ctx, m)
+    C.stage_race(ctx, dict(module="Gen_Schedules", name="sets"))
+
+
 def run_c06(ctx, C):
     codec_common(ctx, C, [GEN_SK], [], mcs=[MC_SK], traces=("Trace_SK",))
 
@@ -198,6 +212,14 @@ def run_c04(ctx, C):
 
 
 PLANS = {
+    "C18": dict(level="exploration", run=run_c18,
+                assumptions=["absence of data races is observed with the Go race detector on the executed accesses, not derived",
+                             "the harness's own goroutine code is race-free (barrier start, private logs, join)"],
+                rule="Goroutines.tla model-checked over all interleavings (two knob-off sanity runs: lazily initialised registry, shared scratch buffer); "
+                     "TLC emits program sets in which every unordered pair of 13 operation kinds (codec, protect/unprotect, key derivation, DH, "
+                     "transform mapping, EAP, random numbers, NewIKESAKey, String methods, builders, cipher, decoders sharing one read-only slice) runs "
+                     "on different goroutines, plus mixed sets for N in {3, 8, 64}, GOMAXPROCS in {2, 4, 16}; free-running under -race; every "
+                     "goroutine's results equal its sequential results. distinct = program sets"),
     "C14": dict(level="model_checking", run=run_c14, assumptions=ASSUME_CODEC,
                 rule="EAPWire.tla reference codec (RFC 3748 / 4187 / 5448) checked against itself by TLC; all 256 codes with and without data; "
                      "Identity/Notification/Nak/Expanded pools incl. EAP-5G; EAP-AKA' subsets of the 7 settable attributes, RES 4..16, KDF_INPUT "
